@@ -3,6 +3,7 @@ Driver glue for M-Parents: S-expression ⇄ `Parents.Op` / dumps.  Not part of t
 -/
 import DefconModel.Util.SExp
 import DefconModel.Parents
+import DefconModel.Spec.Parents
 
 namespace DefconModel
 namespace Parents
@@ -91,8 +92,52 @@ def encDump (h : Heap) : SExp :=
     tagged "regs" [setOf (h.regs.map fun r =>
       .list [ofNat r.centre, ofNat r.observer, ofNat r.observable, .atom (nnameStr r.name)])]]
 
+
+/-! A run-time check of the invariant `Wired` (Spec/Parents.lean), field by field, for testing the
+statement on generated histories before/besides proving it: `(check)` lists the fields that fail. -/
+
+def linkB (h : Heap) (o s : Id) : Bool :=
+  h.ownerOf s == some o || (h.kindOf s == some .layer && ancOf h .font s == some o)
+
+def checkWired (h : Heap) : List String :=
+  let ids := List.range h.next
+  let all (f : Id → Node → Bool) : Bool := ids.all fun x => match h.get x with | some n => f x n | none => false
+  let isAnc (o : Option Id) (k : Kind) (x : Id) : Bool := match o with | none => true | some a => ancOf h k x == some a
+  let fields : List (String × Bool) := [
+    ("kKids", all fun _ n => n.kids.all fun x => match h.get x with | some nx => allowed n.kind nx.kind | none => false),
+    ("kidsNodup", all fun _ n => n.kids.eraseDups.length == n.kids.length),
+    ("shape", all fun _ n =>
+      (n.kind.isLeaf || n.pGlyph.isNone) &&
+      (n.kind != .font || (n.pLayer.isNone && n.pLayerSet.isNone && n.pFont.isNone && n.disp.isNone)) &&
+      (n.kind != .layerSet || (n.pLayer.isNone && n.pLayerSet.isNone)) &&
+      (n.kind != .layer || (n.pLayer.isNone && n.pFont.isNone))),
+    ("up", all fun x n => match owner n with | none => true | some p => (h.kidsOf p).contains x),
+    ("down", all fun p np => !(np.kind == .font || (owner np).isSome) || np.kids.all fun x => h.ownerOf x == some p),
+    ("loose", all fun _ n => (owner n).isSome ||
+      (n.pGlyph.isNone && n.pLayer.isNone && n.pLayerSet.isNone && n.pFont.isNone && n.disp.isNone)),
+    ("refs", all fun x n => isAnc n.pGlyph .glyph x && isAnc n.pLayer .layer x && isAnc n.pLayerSet .layerSet x &&
+      isAnc n.pFont .font x && isAnc n.disp .font x),
+    ("full", all fun x n =>
+      (!(n.kind == .glyph && n.pLayer.isSome) || (n.pLayerSet.isSome && n.pFont.isSome)) &&
+      (!(n.kind == .layer && n.pLayerSet.isSome) || (ancOf h .font x).isSome) &&
+      (!(n.kind == .layerSet) || n.pFont.isSome)),
+    ("regSound", h.regs.all fun r => centreOf h r.observable == some r.centre &&
+      ((r.name == .all && r.observer == r.observable) ||
+       ((namesFor h r.observer r.observable).contains r.name && linkB h r.observer r.observable))),
+    ("accExact", all fun x n =>
+      (n.kind == .font || (dispOf h x == ancOf h .font x && fontOf h x == ancOf h .font x)) &&
+      (!n.kind.isLeaf || (glyphOf h x == ancOf h .glyph x && layerOf h x == ancOf h .layer x &&
+         layerSetOf h x == ancOf h .layerSet x))),
+    ("regComplete", all fun x _ => match dispOf h x with
+      | none => true
+      | some c => h.regs.contains ⟨c, x, x, .all⟩ && ids.all fun o =>
+          !(linkB h o x) || (namesFor h o x).all fun nm => h.regs.contains ⟨c, o, x, nm⟩),
+    ("regNodup", h.regs.eraseDups.length == h.regs.length)]
+  (fields.filter fun p => !p.2).map (·.1)
+
 def driverStep (h : Heap) (line : SExp) : Heap × SExp :=
   match line with
+  | .list [.atom "check"] => (h, tagged "check" ((checkWired h).map .atom))
   | .list [.atom "mutate", x, .atom "nolog"] =>
     match asNat? x with
     | none => (h, .atom "bad-op")
